@@ -140,6 +140,9 @@ ReadersAgree == (pc = {} /\ mode = "read") =>
 WriterWholeOK == (pc = {} /\ mode = "write" /\ failvol = 0) =>
                    LET b == HandlerOutput(1) IN ~ScanVerdict(b) /\ ~SuffixVerdict(b)
 
+\* the writer obligation that makes a failed listing a cut-short response (model level / drift only)
+WriterTruncates == (pc = {} /\ mode = "write" /\ failvol # 0) => ~Term(HandlerOutput(1))
+
 TypeOK == C!CTypeOK /\ mode \in {"read", "write"}
 
 --------------------------------------------------------------------------
